@@ -6,6 +6,17 @@ import os
 ROOT = os.path.dirname(os.path.dirname(os.path.abspath(__file__)))
 
 CLAIMED = {
+    "C01": dict(
+        text="Lean theorem validate_sound: if the symbolic validator accepts the straight-line numpy program translated from a traced graph against the symbolic loop-notation "
+             "denotation, then for ALL tensor contents and ALL interpretations of the elementary functions the program computes the denotation (naturality of plan execution "
+             "w.r.t. homomorphisms of element algebras). On every run: the real traced graphs of generated id/elementwise calls are validated in the Lean driver; the numpy "
+             "primitive plans are conformance-tested against numpy; every generated call of every family (id, reductions, elementwise, dot, get_at, argfind, preserve_shape; "
+             "three numpy backends) is executed on integer data and compared with an independent Python loop interpreter (the failing-input search).",
+        note="Trusted: Lean kernel, driver, graph serialiser/translator (graph JSON -> Instr list, in Lean), numpy primitive plans (conformance-tested), the Python loop interpreter, "
+             "einx's own solved expression trees (front-trusted; tied by C02/C07/C12). The validator currently covers the id and elementwise families; reductions, dot, get_at, "
+             "argfind and preserve_shape rest on the end-to-end oracle comparison alone (sampled, not proved). Only numpy backends can run here.",
+        technique="Lean 4 proof (validator soundness) + per-call translation validation of real traced graphs + oracle differential",
+        design="5 (C01), 4 (M3, M5)"),
     "C11": dict(
         text="Lean theorems about the model of BackendRegistryState (precedence chain, get = pure specGet in every quiet state with a sound memo, "
              "lookups do not influence later lookups, register clears the memo [obligation regenerated from the AST], failing factories isolated, real priorities) "
